@@ -6,7 +6,7 @@
 # mutated scratch copy (tools/mutate.sh).  Writes /verif/seeded/<ID>-<n>/eval.log.
 wt=$1; n=$2; id=$3; shift 3
 src=$wt/seeded/$n
-dst=/verif/seeded/$id-$n
+dst=/verif/seeded/${SEED_PREFIX:-}$id-$n
 mkdir -p $dst
 rsync -a --exclude target --exclude '*.log' $src/ $dst/ 2>/dev/null
 log=$dst/eval.log
